@@ -260,6 +260,8 @@ def menu(fmt):
     add("loc.geo", "location.geo=identity-transformation", lambda s: s["location"].__setitem__("geo", {"ref": "+proj=utm +zone=32", "x": 0.0, "y": 0.0, "rot": 0.0, "scale": 1.0}))
     add("loc.geo", "location.geo=reference-only(defaults)", lambda s: s["location"].__setitem__("geo", {"ref": "+proj=utm +zone=32"}))
     add("loc.env", "location.env=None", lambda s: s["location"].__setitem__("env", None))
+    add("env.time", "environment.time=with-day-month-year", lambda s: s["location"]["env"].__setitem__("time", [12, 30, 2, 3, 2020]))
+    add("env.time", "environment.time=with-year-only", lambda s: s["location"]["env"].__setitem__("time", [23, 59, None, None, 2031]))
     # a location that keeps the "unknown place" defaults for name id and GPS position but carries a geo transformation and an environment
     add("loc.ids", "location.ids=defaults(unknown-place)", lambda s: [s["location"].pop(k_, None) for k_ in ("geo_name_id", "lat", "lon")] and None)
     # a traffic light that no lanelet lists: referenced from a stop line only / not referenced at all (lights, unlike signs, need no lanelet reference)
@@ -458,7 +460,7 @@ def conflicts(a, b):
         return ("cls" in a or "len" in a or "cls" in b or "len" in b) and a != b
     if a.startswith("PP.goal") and b.startswith("PP.goal"):
         return True
-    if {a, b} <= {"loc", "loc.geo", "loc.env", "env.tod", "env.weather", "env.underground"} and ("loc" in (a, b) or ("loc.env" in (a, b) and (a.startswith("env.") or b.startswith("env.")))):
+    if {a, b} <= {"loc", "loc.geo", "loc.env", "env.tod", "env.weather", "env.underground", "env.time", "loc.ids"} and ("loc" in (a, b) or ("loc.env" in (a, b) and (a.startswith("env.") or b.startswith("env.")))):
         return True
     if a.startswith("L2.stop") and b.startswith("L2.stop") and ("L2.stop" in (a, b)):
         return True
